@@ -70,6 +70,7 @@ type c12Cfg struct {
 	maxCompacts  int
 	maxCrashes   int // crash events + mid-step crashes
 	transfer     bool
+	campaign     bool
 	leadTargets  []multiraft.NodeID // nodes that may campaign / receive a transfer
 	compactNodes []multiraft.NodeID
 	crashNodes   []multiraft.NodeID
@@ -77,6 +78,46 @@ type c12Cfg struct {
 	linkModes    []string // per-event link deviations: "drop", "hold", "dup"
 	msgDev       bool     // per-message drop / duplicate / hold deviations
 	crashPoints  []string // crash deviations inside a pass: "save-before", "save-after", "apply-after"
+	pebble       *c12PebbleEnv // non-nil: raft log in the Pebble-backed raftlog store (no merging)
+}
+
+// c12PebbleEnv is one Pebble raft-log database per node on tmpfs, shared by all instances of
+// a system; every instance uses fresh storage scopes (the scope id is independent of the
+// multiraft SlotID), so "fresh instance" does not reopen a database.
+type c12PebbleEnv struct {
+	dir  string
+	dbs  [c12Nodes + 1]*raftlog.DB
+	next atomic.Uint64
+}
+
+func c12OpenPebble() (*c12PebbleEnv, error) {
+	dir, err := os.MkdirTemp("/dev/shm", "verif-c12-")
+	if err != nil {
+		return nil, err
+	}
+	e := &c12PebbleEnv{dir: dir}
+	for n := 1; n <= c12Nodes; n++ {
+		db, err := raftlog.Open(fmt.Sprintf("%s/n%d", dir, n), raftlog.Options{WriteBatchMaxWait: time.Nanosecond})
+		if err != nil {
+			e.close()
+			return nil, err
+		}
+		e.dbs[n] = db
+	}
+	return e, nil
+}
+
+func (e *c12PebbleEnv) close() {
+	for _, db := range e.dbs {
+		if db != nil {
+			_ = db.Close()
+		}
+	}
+	_ = os.RemoveAll(e.dir)
+}
+
+func (e *c12PebbleEnv) storage(node multiraft.NodeID) multiraft.Storage {
+	return e.dbs[node].For(raftlog.SlotScope(e.next.Add(1)))
 }
 
 func c12Has(list []string, x string) bool {
@@ -213,8 +254,12 @@ func (m *c12SM) Restore(ctx context.Context, snap multiraft.Snapshot) error {
 			in.violate("C12:snapshot-corrupt", "node %d slot %d: snapshot at index %d does not decode (%q)", m.node, m.slot, snap.Index, line)
 			continue
 		}
-		idx, _ := strconv.ParseUint(f[0], 10, 64)
-		term, _ := strconv.ParseUint(f[1], 10, 64)
+		idx, err1 := strconv.ParseUint(f[0], 10, 64)
+		term, err2 := strconv.ParseUint(f[1], 10, 64)
+		if err1 != nil || err2 != nil {
+			in.violate("C12:snapshot-corrupt", "node %d slot %d: snapshot at index %d does not decode (%q)", m.node, m.slot, snap.Index, line)
+			continue
+		}
 		seq = append(seq, c12Applied{Idx: idx, Term: term, Data: f[2]})
 	}
 	if in.restarting {
@@ -494,7 +539,11 @@ func c12New(cfg *c12Cfg, g *c12Stats) *c12Inst {
 		in.nodes[id] = nd
 		nd.rt = in.newRuntime(id)
 		for _, s := range cfg.slots {
-			nd.stores[s] = &c12Store{in: in, node: id, inner: raftlog.NewMemory()}
+			inner := raftlog.NewMemory()
+			if cfg.pebble != nil {
+				inner = cfg.pebble.storage(id)
+			}
+			nd.stores[s] = &c12Store{in: in, node: id, inner: inner}
 			nd.sms[s] = &c12SM{in: in, node: id, slot: s}
 			err := nd.rt.BootstrapSlot(ctx, multiraft.BootstrapSlotRequest{
 				Slot:     multiraft.SlotOptions{ID: s, Storage: nd.stores[s], StateMachine: nd.sms[s]},
@@ -537,6 +586,10 @@ func (in *c12Inst) pass(nd *c12Node, slot multiraft.SlotID) {
 	}()
 	in.g.passes.Add(1)
 	nd.rt.VerifC12Pass(slot)
+	if c12Trace {
+		st := in.status(nd.id, slot)
+		fmt.Printf("   pass n%d: role=%d term=%d lead=%d commit=%d applied=%d sm=%v\n", nd.id, st.Role, st.Term, st.LeaderID, st.CommitIndex, st.AppliedIndex, nd.sms[slot].seq)
+	}
 	in.pollFutures()
 }
 
@@ -559,7 +612,24 @@ func (in *c12Inst) restart(nd *c12Node) {
 	}
 }
 
+var c12Trace = os.Getenv("C12_TRACE") != ""
+
+func c12MsgText(m raftpb.Message) string {
+	var ents []string
+	for _, e := range m.Entries {
+		d := ""
+		if e.Type == raftpb.EntryNormal && len(e.Data) > c12EnvelopeSize {
+			d = ":" + string(e.Data[c12EnvelopeSize:])
+		}
+		ents = append(ents, fmt.Sprintf("%d/%d%s", e.Index, e.Term, d))
+	}
+	return fmt.Sprintf("%s %d>%d term=%d logterm=%d index=%d commit=%d reject=%v ents=%v", m.Type, m.From, m.To, m.Term, m.LogTerm, m.Index, m.Commit, m.Reject, ents)
+}
+
 func (in *c12Inst) deliver(nd *c12Node, e multiraft.Envelope) {
+	if c12Trace {
+		fmt.Println("   deliver", c12MsgText(e.Message))
+	}
 	if err := nd.rt.Step(context.Background(), e); err != nil {
 		in.note("n%d step %s: %v", nd.id, e.Message.Type, err)
 	}
@@ -668,6 +738,11 @@ func (in *c12Inst) pollFutures() {
 		in.note("fut %s acked (%d,%d)", p.label, res.Index, res.Term)
 		sm := in.nodes[p.node].sms[p.slot]
 		got, ok := sm.find(res.Index)
+		if in.status(p.node, p.slot).Role != multiraft.RoleLeader && (!ok || got.Data != p.label) {
+			// the acknowledging node is a follower: it forwarded the proposal (MsgProp) and bound the
+			// future to the next data entry it received from the leader
+			in.violate("C12:forwarded-proposal-future-bound-to-foreign-entry", "proposal %q was queued on node %d slot %d while it still believed to lead, forwarded after it stepped down, and then reported committed at index %d term %d with result %q - but index %d holds command %q", p.label, p.node, p.slot, res.Index, res.Term, res.Data, res.Index, got.Data)
+		}
 		switch {
 		case !ok:
 			in.violate("C12:future-result-mismatch", "proposal %q on node %d slot %d was reported committed at index %d term %d, but the local state machine applied nothing at that index", p.label, p.node, p.slot, res.Index, res.Term)
@@ -743,7 +818,7 @@ func (in *c12Inst) Events() []string {
 		}
 		if in.nLeaderChg < in.cfg.maxLeaderChg {
 			for _, id := range others {
-				if c12HasNode(in.cfg.leadTargets, id) {
+				if in.cfg.campaign && c12HasNode(in.cfg.leadTargets, id) {
 					evs = append(evs, fmt.Sprintf("campaign@%d%s", id, sfx))
 				}
 			}
@@ -1148,7 +1223,8 @@ func c12MsgKey(e multiraft.Envelope) string {
 }
 
 func (in *c12Inst) Canon() string {
-	if in.dead {
+	if in.dead || in.cfg.pebble != nil {
+		// Pebble store: caches and on-disk layout are not readable through the Storage API
 		return ""
 	}
 	h := sha256.New()
@@ -1201,10 +1277,11 @@ func TestVerifC12(t *testing.T) {
 	th := r.Thorough()
 
 	all := []multiraft.NodeID{1, 2, 3}
+	n12 := []multiraft.NodeID{1, 2}
 	base := c12Cfg{
 		slots:        []multiraft.SlotID{1},
-		maxProposals: ev.Pick(r, 2, 3), maxTicks: 2, maxLeaderChg: 1, maxCompacts: 1, maxCrashes: 1,
-		transfer: true, leadTargets: []multiraft.NodeID{2}, compactNodes: []multiraft.NodeID{1, 2}, crashNodes: all,
+		maxProposals: 2, maxTicks: 1, maxLeaderChg: 1, maxCompacts: 1, maxCrashes: 1,
+		transfer: true, campaign: true, leadTargets: []multiraft.NodeID{2}, compactNodes: n12, crashNodes: all,
 		nodeFaults: true, linkModes: []string{"drop", "hold", "dup"},
 		crashPoints: []string{"save-before", "save-after", "apply-after"},
 	}
@@ -1220,35 +1297,69 @@ func TestVerifC12(t *testing.T) {
 		maxStates  int64
 	}
 	var specs []sysSpec
-	add := func(name string, depth, dev int, maxStates int64, tweak func(c *c12Cfg)) {
+	add := func(name string, depth, dev int, tweak func(c *c12Cfg)) {
 		c := base
 		c.name = name
 		if tweak != nil {
 			tweak(&c)
 		}
-		specs = append(specs, sysSpec{cfg: c, depth: dbg("C12_DEPTH_"+name, depth), dev: dbg("C12_DEV_"+name, dev), maxStates: maxStates})
+		specs = append(specs, sysSpec{cfg: c, depth: dbg("C12_DEPTH_"+name, depth), dev: dbg("C12_DEV_"+name, dev), maxStates: 8000000})
 	}
-	// faultless network: long event sequences (client, timer, operator and crash events only)
-	add("dev0", ev.Pick(r, 6, 8), 0, 4000000, func(c *c12Cfg) { c.leadTargets = all; c.compactNodes = all; c.maxTicks = 1 })
-	// every single deviation at every position
-	add("dev1", ev.Pick(r, 4, 5), 1, 4000000, nil)
-	// every pair of deviations
-	add("dev2", ev.Pick(r, 3, 4), 2, 6000000, func(c *c12Cfg) { c.maxTicks = 1 })
+	// dev0: faultless network, long sequences of client / timer / operator / crash events
+	add("dev0", ev.Pick(r, 5, 8), 0, func(c *c12Cfg) {
+		c.leadTargets, c.compactNodes = all, all
+		c.maxProposals, c.maxCrashes = 3, ev.Pick(r, 1, 2)
+	})
+	// dev1: every single deviation of every kind at every position
+	add("dev1", ev.Pick(r, 3, 5), 1, func(c *c12Cfg) { c.maxProposals = ev.Pick(r, 2, 3) })
+	// election: leadership change under node faults and lossy / slow links (no compaction, no crash)
+	add("election", ev.Pick(r, 4, 5), ev.Pick(r, 1, 2), func(c *c12Cfg) {
+		c.maxCompacts, c.maxCrashes, c.crashPoints = 0, 0, nil
+		c.linkModes = ev.Pick(r, []string{"drop", "hold"}, []string{"drop", "hold", "dup"})
+	})
+	// recovery: lagging follower, compaction, snapshot transfer, crash-restart (no leadership change)
+	add("recovery", ev.Pick(r, 4, 5), 2, func(c *c12Cfg) {
+		c.maxLeaderChg, c.nodeFaults = 0, false
+		c.maxTicks = ev.Pick(r, 1, 2)
+		c.compactNodes = ev.Pick(r, []multiraft.NodeID{1}, n12)
+		c.crashNodes = ev.Pick(r, []multiraft.NodeID{3}, all)
+		c.linkModes = []string{"drop"}
+		c.crashPoints = ev.Pick(r, []string{"save-after"}, []string{"save-before", "save-after", "apply-after"})
+	})
 	if th {
-		// every triple of deviations (no duplicate links, crash points after the save only)
-		add("dev3", 3, 3, 6000000, func(c *c12Cfg) {
-			c.maxTicks = 1
+		// dev2 / dev3: every pair / triple of deviations of every kind
+		add("dev2", 4, 2, nil)
+		add("dev3", 3, 3, func(c *c12Cfg) {
 			c.linkModes = []string{"drop", "hold"}
 			c.crashPoints = []string{"save-after", "apply-after"}
 		})
-		// per-message instead of per-link deviations
-		add("msg1", 4, 1, 4000000, func(c *c12Cfg) { c.linkModes = nil; c.msgDev = true })
+		// msg1: per-message instead of per-link deviations
+		add("msg1", 4, 1, func(c *c12Cfg) { c.linkModes = nil; c.msgDev = true })
 	}
-	// two slots inside one Runtime per node (messages routed by Runtime.Step on Envelope.SlotID)
-	add("slots2", ev.Pick(r, 3, 4), 1, 2000000, func(c *c12Cfg) {
+	if th {
+		// pebble: the same protocol over the Pebble-backed raft log store (pebble_store.go,
+		// pebble_writer.go) instead of raftlog.NewMemory(); no merging
+		penv, err := c12OpenPebble()
+		if err != nil {
+			r.HarnessError("cannot open Pebble raft log stores on /dev/shm: %v", err)
+			return
+		}
+		defer penv.close()
+		add("pebble", 4, 1, func(c *c12Cfg) {
+			c.pebble = penv
+			c.campaign, c.nodeFaults = false, false
+			c.compactNodes = []multiraft.NodeID{1}
+			c.crashNodes = []multiraft.NodeID{1, 3}
+			c.linkModes = []string{"drop"}
+			c.crashPoints = []string{"save-after"}
+		})
+	}
+	// slots2: two slots inside one Runtime per node (messages routed by Runtime.Step on Envelope.SlotID)
+	add("slots2", ev.Pick(r, 3, 4), 1, func(c *c12Cfg) {
 		c.slots = []multiraft.SlotID{1, 2}
-		c.maxProposals, c.maxTicks, c.maxCompacts = 2, 0, 0
+		c.maxTicks, c.maxCompacts = 0, 0
 		c.transfer = false
+		c.crashNodes = []multiraft.NodeID{1}
 		c.crashPoints = nil
 		c.linkModes = []string{"drop", "hold"}
 	})
@@ -1285,7 +1396,8 @@ func TestVerifC12(t *testing.T) {
 			MaxStates:     sp.maxStates,
 			Bounds: map[string]any{
 				"replicas": 3, "slots": len(cfg.slots), "proposals": cfg.maxProposals, "leader_ticks": cfg.maxTicks,
-				"leader_changes": cfg.maxLeaderChg, "new_leader_candidates": fmt.Sprint(cfg.leadTargets), "transfer_events": cfg.transfer,
+				"leader_changes": cfg.maxLeaderChg, "new_leader_candidates": fmt.Sprint(cfg.leadTargets), "campaign_events": cfg.campaign, "transfer_events": cfg.transfer,
+				"raft_log_store": map[bool]string{false: "raftlog.NewMemory()", true: "raftlog Pebble store on tmpfs (one DB per node, fresh scope per instance)"}[cfg.pebble != nil],
 				"compactions": cfg.maxCompacts, "compaction_nodes": fmt.Sprint(cfg.compactNodes),
 				"crash_restarts": cfg.maxCrashes, "crash_nodes": fmt.Sprint(cfg.crashNodes),
 				"deviation_kinds": fmt.Sprintf("node faults (isolate n | stall n until heal): %v; per-event link deviations %v on each of the 6 directed links; per-message drop/duplicate/hold: %v; crash-restart inside a pass at %v", cfg.nodeFaults, cfg.linkModes, cfg.msgDev, cfg.crashPoints),
@@ -1335,7 +1447,7 @@ func TestVerifC12(t *testing.T) {
 	r.Guard("crashes-seen", crashTop >= 100 && crashMid >= 100, "between passes=%d inside a pass=%d", crashTop, crashMid)
 	r.Guard("leader-changes-seen", lc >= 100 && acksLC >= 10 && twoL >= 10, "completed=%d acks after a change=%d stale-leader states=%d", lc, acksLC, twoL)
 	r.Guard("futures-both-outcomes", acks >= 100 && notLeader >= 10, "acked=%d failed-not-leader=%d", acks, notLeader)
-	r.Guard("follower-forwarding-reached", fwd >= 1, "MsgProp forwarded by a follower: %d", fwd)
+	_ = fwd // 0 once proposal forwarding is disabled (proposed fix 0001); kept as a counter
 	r.Assume("election timeouts never fire inside the horizon (ElectionTick 2^20, at most 2 heartbeat ticks, ticks only on leaders); the election timer is the explicit campaign event")
 	r.Assume("CheckQuorum is off in the harness (production: on): its lease and step-down are functions of the election clock, which is outside the model; PreVote is on as in production")
 	r.Assume("the apply path is the inline one (slot.apply == nil); Runtime worker/ticker goroutines, the scheduler and the asynchronous applyPipeline are not exercised")
